@@ -49,7 +49,12 @@ KINDS = {
     "hrdyn": ("&(dyn for<'x> Fn(&'x u64) -> u64 + Send + Sync)", 1),
     "fnptr": ("fn(u64) -> u64", 1),
     "selfref": ("&Self", 1),
+    # exactly `impl Into<X>`, one bound: the conversion is the FUNCTION's business (it allocates,
+    # declared, and constructs a Tracked); `intonever`: the function never converts at all
+    "intosole": ("impl Into<Tracked>", 1),
+    "intonever": ("impl Into<Tracked>", 1),
 }
+SPECIAL_KINDS = ("intosole", "intonever")
 
 
 class Param:
@@ -144,6 +149,10 @@ class Param:
             return [f"{{ let mut __i = {n}; __i.next().unwrap_or(0) }}"]
         if k == "into":
             return [f"{n}.into()"]
+        if k == "intosole":
+            return [f"{{ let __t: Tracked = {n}.into(); __t.id }}"]
+        if k == "intonever":
+            return [f"{{ let _ = &{n}; 0 }}"]
         if k == "refref":
             return [f"**{n}"]
         if k == "tup3":
@@ -211,6 +220,10 @@ class Param:
             return (f"let i{k} = [v[{k}], v[{k+1}]];", f"i{k}.into_iter()", [f"v[{k}]"], 2)
         if kd == "into":
             return ("", f"v[{k}] as u32", [f"v[{k}]"], 1)
+        if kd == "intosole":
+            return ("", f"ConvSrc(v[{k}])", [f"v[{k}]"], 1)
+        if kd == "intonever":
+            return ("", f"ConvSrc(v[{k}])", ["0"], 1)
         if kd == "refref":
             return (f"let rr{k} = &v[{k}];", f"&rr{k}", [f"v[{k}]"], 1)
         if kd == "tup3":
@@ -662,6 +675,14 @@ single(Fn("r_u32", ("impl", ["F0"]), ["u64"], ret="u32r", calls=["f0"]))
 single(Fn("r_i32", ("any", []), [], ret="i32r"))
 single(Fn("r_usize", ("impl", ["F0"]), [], ret="usizer"))
 single(Fn("ar_u8", ("impl", ["Af0"]), ["u64"], ret="u8r", is_async=True))
+# sole-bound `impl Into<X>` parameters: converted by the function, or never
+single(Fn("into_conv", ("impl", ["F0"]), ["intosole", "u64"], props=("C01", "C14")))
+single(Fn("into_never", ("impl", ["F0"]), ["u64", "intonever"], props=("C01", "C14")))
+single(Fn("into_both", ("impl", ["F0"]), ["intonever", "intosole"], calls=["f0"], props=("C01", "C14")))
+single(Fn("into_nd", ("nodeps", []), ["intonever", "u64"], opts="no_deps", props=("C01", "C14")))
+single(Fn("ainto_never", ("impl", ["Af0"]), ["u64", "intonever"], is_async=True, opts="?Send", send=False, props=("C01", "C14")))
+single(Fn("ainto_conv", ("impl", ["Af0"]), ["intosole", "u64"], is_async=True, opts="?Send", send=False, calls=["af0"], props=("C01", "C14")))
+module("intomod", "Intomod", [Fn("intom_a", ("impl", ["F0"]), ["intonever", "u64"]), Fn("intom_b", ("impl", ["F0"]), ["u64", "intosole"])], props=("C01", "C14"))
 # bare-path attributes below `#[entrait]`: built-in markers and a user attribute macro whose
 # expansion allocates (declared) inside the function it is applied to
 single(Fn("hs_sync", ("impl", ["F0"]), ["u64", "u64"], below="#[gensim_attrs::heap_scratch]", calls=["f0"], props=("C01", "C14")))
@@ -784,7 +805,7 @@ module("mndh", "Mndh", [
 
 
 # ==== systematic matrices: parameter kinds, return kinds, arities ==========
-MATRIX_KINDS = [k for k in KINDS if k not in ("refa", "gen", "genm", "arrN", "u64", "selfref")]
+MATRIX_KINDS = [k for k in KINDS if k not in ("refa", "gen", "genm", "arrN", "u64", "selfref") + SPECIAL_KINDS]
 ASYNC_SKIP = {"fn"}        # not Send
 for k in MATRIX_KINDS:
     single(Fn(f"k_{k}", ("impl", ["F0"]), [k, "u64", k]))
@@ -963,6 +984,16 @@ pub struct S2 {
     pub s: u64,
 }
 
+/// source of a caller-visible conversion: `ConvSrc -> Tracked` allocates (declared) and constructs
+pub struct ConvSrc(pub u64);
+impl From<ConvSrc> for Tracked {
+    fn from(s: ConvSrc) -> Tracked {
+        let b = sim::declared(|| Box::new(s.0));
+        std::hint::black_box(&b);
+        Tracked::new(*b)
+    }
+}
+
 pub fn hr_id(x: &u64) -> &u64 {
     x
 }
@@ -1019,6 +1050,18 @@ def decl_text(fn):
 def self_impl_fn_text(fn, id_expr):
     """hand-written provider impl of one trait method (simulator-owned leaf)"""
     g = method_generics(fn)
+    if getattr(fn, "desugared_provider", False):
+        # `async fn` in the trait, provided in desugared form: the provider is ENTERED when the
+        # method is called and hands back a future that finishes the work
+        params = ["&self"] + [p.sig(i, fn.name) for i, p in enumerate(fn.params)]
+        fps = []
+        for i, p in enumerate(fn.params):
+            fps += p.body_fps(i, fn.name)
+        rt = {"u64": "u64", "unit": "()"}[fn.ret]
+        tail = "sim::exit(__f, &[])" if fn.ret == "u64" else "let _ = sim::exit(__f, &[]);"
+        return (f"    #[allow(refining_impl_trait)]\n    fn {fn.name}{g}({', '.join(params)}) -> impl std::future::Future<Output = {rt}> + Send {{\n"
+                f"        let __f = sim::enter({id_expr}, sim::addr(self), &[{', '.join(fps)}]);\n        sim::user_alloc(&__f);\n"
+                f"        async move {{\n            sim::pause(&__f).await;\n            {tail}\n        }}\n    }}\n")
     params = ["&self"] + [p.sig(i, fn.name) for i, p in enumerate(fn.params)]
     ret = RET_TEXT[fn.ret]
     asy = "async " if fn.is_async else ""
@@ -1287,6 +1330,78 @@ trait_section("UTr", "self", _ut, opts_pre="mock_api = UTrMock")
 _utr = [Fn("utrr1", SELF, ["u64", "u64"]), Fn("utrr2", SELF, ["u64", "u64"])]
 trait_section("UTrRef", "ref", _utr, supers=": 'static", opts_pre="mock_api = UTrRefMock")
 UNMOCK_NEG.extend(_ut + _utr)
+def tagged_trait(name, delegate, methods):
+    """generic entraited trait whose type parameters appear in NO method signature ("tags"); the
+    application provides it for <TagX, TagY> (real) and for <TagY, TagX> (decoy, function id 60006)"""
+    cid = new_container()
+    cfg = ccfg(cid)
+    for fn in methods:
+        fn.cid = cid
+        fn.container_hetero = False
+        FN_COUNTER[0] += 2
+        fn.fn_id = FN_COUNTER[0] - 1
+        fn.fn_ids = (fn.fn_id, fn.fn_id + 1)
+        fn.method_id = METHOD_COUNTER[0]
+        METHOD_COUNTER[0] += 1
+        fn.section = "trait"
+        assert fn.name not in ALL_FNS, fn.name
+        fn.props = ["C06"] + (["C14"] if delegate == "self" else [])
+        fn.dynamic = delegate != "self"
+        METHODS.append(fn)
+        ALL_FNS[fn.name] = fn
+    opt = {"self": "", "ref": "delegate_by = ref", "borrow": "delegate_by = Borrow"}[delegate]
+    sup = "" if delegate == "self" else ": 'static"
+    tparams = "A, B" if delegate == "self" else "A: 'static, B: 'static"
+    text = f"{cfg}#[entrait({opt})]\npub trait {name}<{tparams}>{sup} {{\n" + "".join(decl_text(m) for m in methods) + "}\n"
+    real, decoy = "<TagX, TagY>", "<TagY, TagX>"
+
+    def decoy_fns():
+        out = ""
+        for m in methods:
+            ps = ["&self"] + [p.sig(i, m.name) for i, p in enumerate(m.params)]
+            asy = "async " if m.is_async else ""
+            out += (f"    {asy}fn {m.name}({', '.join(ps)}){RET_TEXT[m.ret]} {{\n        let __f = sim::enter(60006, sim::addr(self), &[]);\n"
+                    + "\n".join("        " + l for l in ret_tail(m, "")) + "\n    }\n")
+        return out
+    if delegate == "self":
+        text += f"{cfg}impl<const K: u16> {name}{real} for App<K> {{\n" + "".join(self_impl_fn_text(m, f"{m.fn_id} + K") for m in methods) + "}\n"
+        text += f"{cfg}impl<const K: u16> {name}{decoy} for App<K> {{\n" + decoy_fns() + "}\n"
+        for m in methods:
+            m.recv_expr = "sim::addr(app.as_ref())"
+            m.lookups = 0
+            m.direct_call = f"{name}::{real}::{m.name}(app.as_ref(), {{args}})"
+    else:
+        field = f"prov_{name.lower()}"
+        APP_FIELDS.append(field)
+        text += f"{cfg}impl {name}{real} for Prov {{\n" + "".join(self_impl_fn_text(m, f"{m.fn_id} + self.which") for m in methods) + "}\n"
+        text += f"{cfg}impl {name}{decoy} for Prov {{\n" + decoy_fns() + "}\n"
+        k = lookup_kind(name)
+        tr, fnm = ("AsRef", "as_ref") if delegate == "ref" else ("::core::borrow::Borrow", "borrow")
+        text += (f"{cfg}impl<const K: u16> {tr}<dyn {name}{real}> for App<K> {{\n    fn {fnm}(&self) -> &(dyn {name}{real} + 'static) {{\n"
+                 f"        sim::lookup({k});\n        &self.{field}\n    }}\n}}\n")
+        text += (f"{cfg}impl<const K: u16> {tr}<dyn {name}{decoy}> for App<K> {{\n    fn {fnm}(&self) -> &(dyn {name}{decoy} + 'static) {{\n"
+                 f"        &self.{field}\n    }}\n}}\n")
+        for m in methods:
+            m.recv_expr = f"sim::addr(&app.{field})"
+            m.lookups = 1
+            m.lookup_kind = k
+            m.direct_call = f"{name}::{real}::{m.name}(&app.{field}, {{args}})"
+    for m in methods:
+        m.trait_call = f"{name}::{real}::{m.name}(app, {{args}})"
+    corpus.append(cmark(cid) + text + cmark(0))
+    bundle_traits.append((name + real, False))
+
+
+corpus.append("pub struct TagX;\npub struct TagY;\n")
+tagged_trait("PlainTags", "self", [Fn("ptag1", SELF, ["u64", "u64"]), Fn("ptag_unit", SELF, ["u64"], ret="unit"), Fn("aptag1", SELF, ["u64", "u64"], is_async=True)])
+tagged_trait("ByRefTags", "ref", [Fn("rtag1", SELF, ["u64", "u64"]), Fn("rtag2", SELF, ["u64", "u64"])])
+tagged_trait("ByBorrowTags", "borrow", [Fn("btag1", SELF, ["u64", "u64"])])
+_ds = [Fn("dsg1", SELF, ["u64", "u64"], is_async=True), Fn("dsg_unit", SELF, ["u64"], ret="unit", is_async=True), Fn("dsg0", SELF, [], is_async=True),
+       Fn("dsg_plain", SELF, ["u64", "u64"], is_async=True)]
+for _m in _ds[:3]:
+    _m.desugared_provider = True
+trait_section("PlainDesugared", "self", _ds)
+trait_section("PlainInto", "self", [Fn("pinto_never", SELF, ["u64", "intonever"]), Fn("pinto_conv", SELF, ["intosole", "u64"])])
 trait_section("PlainSame", "self", [Fn("psame", SELF, ["u64", "same:u64"]), Fn("psame3", SELF, ["u64", "u64", "same:u64"]),
                                     Fn("psame_first", SELF, ["same:u64", "u64"]), Fn("psame_mid", SELF, ["u64", "same:u64", "u64"]),
                                     Fn("apsame_first", SELF, ["same:u64", "u64"], is_async=True)])
@@ -1563,6 +1678,8 @@ _hs[0].impl_below = "#[gensim_attrs::heap_scratch]"
 _hs[1].impl_below = "#[gensim_attrs::heap_scratch]"
 _hs[2].impl_below = "#[inline]"
 inversion("InvHs", "InvHsImpl", "static", [(_hs[0], ("impl", ["F0"]), ["f0"]), (_hs[1], ("impl", ["Af0"]), ["af0"]), (_hs[2], ("any", []), [])], delegate_ident="DelegateInvHs")
+inversion("InvInto", "InvIntoImpl", "static", [(Fn("iinto_never", SELF, ["u64", "intonever"]), ("impl", ["F0"]), ["f0"]), (Fn("iinto_conv", SELF, ["intosole", "u64"]), ("any", []), [])],
+          delegate_ident="DelegateInvInto")
 inversion("InvPerm", "InvPermImpl", "static", [(Fn(f"iperm{_i}", SELF, [f"name={n}:u64" for n in _pm]), ("any", []), []) for _i, _pm in enumerate(_PERMS)],
           delegate_ident="DelegateInvPerm")
 inversion("DynInvPerm", "DynInvPermImpl", "dyn", [(Fn(f"dperm{_i}", SELF, [f"name={n}:u64" for n in _pm]), ("any", []), []) for _i, _pm in enumerate(_PERMS)])
@@ -1700,6 +1817,13 @@ uneg(Fn("aucn_unitdep", ("concrete", ["()"]), ["u64", "u64"], is_async=True), "A
 uneg(Fn("ucn_unitdep0", ("concrete", ["()"]), []), "UcnUnitdep0Mock")
 uneg(Fn("ucn_tup", ("concrete", ["(ConcDep, u64)"]), ["u64", "u64"]), "UcnTupMock")
 uneg(Fn("ucn_u64dep", ("concrete", ["u64"]), ["u64"]), "UcnU64depMock")
+for _n, _asy in (("ucn_dyn", False), ("aucn_dyn", True)):
+    _f = Fn(_n, ("concrete", ["(dyn U0 + Sync)" if _asy else "dyn U0"]), ["u64", "u64"], is_async=_asy)
+    uneg(_f, "".join(w.capitalize() for w in _n.split("_")) + "Mock")
+    _dy = "&(dyn U0 + Sync)" if _asy else "&dyn U0"
+    _f.trait_call = f"(app as {_dy}).{_n}({{args}})"
+    _f.direct_call = f"{_n}(app as {_dy}, {{args}})"
+    _f.recv_expr = "sim::addr(app)"
 ALL_FNS["ucn_unitdep"].conc_handle = ALL_FNS["aucn_unitdep"].conc_handle = ALL_FNS["ucn_unitdep0"].conc_handle = "conc_unit_impl"
 ALL_FNS["ucn_tup"].conc_handle = "conc_tup_impl"
 ALL_FNS["ucn_u64dep"].conc_handle = "conc_u64_impl"
@@ -2113,10 +2237,13 @@ def arm(fn, ab, is_async, mock=False):
             body += f"            let __fp = match sim::refusal(|| {call}) {{ Ok(__r) => {ret_fp(fn)}, Err(()) => 0 }};\n"
         body += f"            sim::call_end(__t, __fp);\n            __fp\n        }}\n        // @C0\n"
         return body
-    body += f"            let __t = sim::call_start_flavor({fn.method_id}, {recv}, &[{', '.join(fps)}], flavor);\n"
+    # desugared providers do their first part when CALLED; when Impl<T> forwards (at the call or at
+    # the first poll) is not something C06 states, so these methods are always awaited
+    lazy_ok = not getattr(fn, "desugared_provider", False)
+    body += f"            let __t = sim::call_start_flavor({fn.method_id}, {recv}, &[{', '.join(fps)}], {'flavor' if lazy_ok else '0'});\n"
     if fn.unsafe_:
         dc, tc = f"unsafe {{ {dc} }}", f"unsafe {{ {tc} }}"
-    if fn.is_async:
+    if fn.is_async and lazy_ok:
         body += f"            if flavor == 1 {{\n                if direct {{ drop({dc}); }} else {{ drop({tc}); }}\n                sim::call_end(__t, 0);\n                return 0;\n            }}\n"
     body += f"            let __fp = if direct {{ let __r = {dc}{aw}; {ret_fp(fn)} }} else {{ let __r = {tc}{aw}; {ret_fp(fn)} }};\n"
     body += f"            sim::call_end(__t, __fp);\n            __fp\n        }}\n        // @C0\n"
